@@ -24,6 +24,15 @@ def tally(base_case, max_leaves=200000):
         return {"decided": False, "why": "oracle: %s" % ex, "leaves": n}
     if n >= max_leaves:
         return {"decided": False, "why": "tree larger than %d leaves" % max_leaves, "leaves": n}
+    if n == 1 and not rec.get("trail"):
+        # the oracle saw no draw at all.  Either the shuffle is gone (a genuine violation: one deterministic placement) or the
+        # randomness no longer comes from the random module (then the distribution is not enumerable: not decided, never an alarm)
+        seen = set()
+        for s in range(8):
+            r2 = stub.execute(dict(base_case, rng=("none", s)))
+            seen.add(str(stub.arrangement(r2)))
+        if len(seen) > 1:
+            return {"decided": False, "why": "outputs vary although no draw reached the random module (other RNG)", "leaves": n}
     return {"decided": True, "leaves": n, "weights_sum_to_one": total == 1,
             "outcomes": [{"arr": [list(a) for a in k], "num": v.numerator, "den": v.denominator} for k, v in sorted(out.items())]}
 
